@@ -437,7 +437,7 @@ class Oracle:
                     if (k, ea) in self.arrived_after:
                         self.report(dict(D8_SIG), 'no entry', dict(worker=k, task=ea),
                                     f'worker {k} keeps cancelled task {ea} in _tasks for ever: its SUBMIT was handled after '
-                                    'the CANCEL of an ancestor (the task is skipped by _get_next_ready_task, never removed)')
+                                    'the CANCEL of an ancestor (regression of /repo 5dfab15: the skipped task must be forgotten)')
                     else:
                         self.report(dict(symptom='cancelled_task_left_in_tasks', cause='other'), 'no entry',
                                     dict(worker=k, task=ea), f'worker {k} still holds cancelled task {ea} at quiescence')
